@@ -77,14 +77,18 @@ impl AuthenticationRequest {
         data: &[u8],
         parameter: impl Into<AuthenticationParameter>,
     ) -> Result<Self, TryFromSliceError> {
-        let (challenge, data) = data.split_at(32);
-        let (application, data) = data.split_at(32);
-        let (handle_len, data) = data.split_at(1);
-        let key_handle = data[..handle_len[0] as usize].to_vec();
+        // Slices that are too short turn into a conversion error instead of a panic.
+        let challenge = data.get(..32).unwrap_or_default().try_into()?;
+        let application = data.get(32..64).unwrap_or_default().try_into()?;
+        let [handle_len]: [u8; 1] = data.get(64..65).unwrap_or_default().try_into()?;
+        let key_handle = match data.get(65..65 + handle_len as usize) {
+            Some(handle) => handle.to_vec(),
+            None => return Err(<[u8; 1]>::try_from(&[][..]).unwrap_err()),
+        };
         Ok(Self {
             parameter: parameter.into(),
-            challenge: challenge.try_into()?,
-            application: application.try_into()?,
+            challenge,
+            application,
             key_handle,
         })
     }
